@@ -420,6 +420,7 @@ func (sc linScn) scenario() Scenario {
 func genC13(tier string) []Scenario {
 	var out []Scenario
 	th := tier == "thorough"
+	out = append(out, genC13Matrix()...)
 	// a merge large enough for any batched path, against concurrent writers of existing keys
 	for _, prefill := range []bool{true, false} {
 		out = append(out, linScn{lens: []int{1, 1}, first: oMergeBig, prefill: prefill, big: true, bound: unbounded}.scenario())
